@@ -1558,15 +1558,30 @@ def own_demand_steps_with_arrivals(op):
     while t[i] == "dflt":
         i += 1
     i += {"ded": 1, "psup": 3, "csup": 4}.get(t[i], 99)
+    def one_rbf_positive(i):
+        # a single RBF whose every job has a positive cost: scalar >= 1, multiframe without empty frames,
+        # strictly increasing cumulative cost curve
+        if t[i] != "rbf":
+            raise Unsupported(t[i])
+        _, j = parse_arr(t, i + 1)
+        if t[j] == "cc":
+            v, j2 = _p_list(t, j + 1)
+            ok = bool(v) and v[0] >= 1 and all(b > a for a, b in zip(v, v[1:]))
+            return ok, j2
+        c, j2 = parse_cost_any(t, j)
+        ok = (c[0] == "sc" and c[1] >= 1) or (c[0] == "mf" and bool(c[1]) and min(c[1]) >= 1)
+        return ok, j2
     try:
         if t[0] == "ros_ch":
             # last, prefix, full chain: the search space comes from the full chain's demand
             _, i = parse_rb_flat(t, i)
             _, i = parse_rb_flat(t, i)
-        own, _ = parse_rb_flat(t, i)
+            own, _ = parse_rb_flat(t, i)
+            return len(own) == 1 and own[0][1] >= 1
+        ok, _ = one_rbf_positive(i)
+        return ok
     except (Unsupported, ValueError, IndexError):
         return False
-    return len(own) == 1 and own[0][1] >= 1
 
 
 def falsify_C07(ctx):
@@ -1584,7 +1599,7 @@ def falsify_C07(ctx):
     for d in ((ctx.get("corr") or {}).get("disagreements") or [])[:200]:
         o = d.get("op", "")
         if o.split()[:1] and o.split()[0] in ("ros_es", "ros_tm", "ros_pp", "ros_ch", "rr", "bw") and o.split()[-1].isdigit() \
-                and int(o.split()[-1]) <= 400:
+                and int(o.split()[-1]) <= 2500 and len(ops) < n + 80:
             ops.append(o)
     r = real(ops)
     nv = common.run_parallel(common.lean_bin(), ["nv_" + o for o in ops])
